@@ -12,10 +12,10 @@ VERIF = os.path.dirname(os.path.dirname(os.path.abspath(__file__)))
 READY = [l.strip() for l in open(os.path.join(VERIF, "tools", "ready.txt")) if l.strip() and not l.startswith("#")]
 
 P = {
- "C01": dict(cat="proof", tech="algebraic summaries of the closure/time-bookkeeping code (abstract interpretation in rational functions; array contents as index-range pieces checked by induction) + provenance interpretation of the entry points",
+ "C01": dict(cat="proof", tech="algebraic summaries of the closure/time-bookkeeping code (abstract interpretation in rational functions; array contents as index-range pieces checked by induction; single-segment path replayed with N = 1) + provenance interpretation of the entry points, incl. data-dependent skip guards",
    text="Hermite closure of every segment polynomial, pinned boundary rows, knot-time bookkeeping and constructor routing are proved as identities/structural facts on the instantiated AST for all N, DIM and positive durations in exact arithmetic.",
    note="exact real arithmetic; floating-point equality of left/right limits not decided; Eigen op semantics trusted"),
- "C02": dict(cat="proof", tech="algebraic summaries: row space of the assembled block rows == continuity jumps; solver unified with (block) Thomas; closed-form inverses/kernels checked entrywise",
+ "C02": dict(cat="proof", tech="algebraic summaries: row space of the assembled block rows == continuity jumps; solver unified with (block) Thomas, once per outcome of history-dependent size guards; closed-form inverses checked entrywise on every path (exact witness refutation on guarded paths)",
    text="The linear system is shown to be the continuity system of the closure polynomials and the elimination to be exact (block) Thomas, for all N (N=1, N=2 paths included), exact arithmetic.",
    note="minimiser characterisation (Schoenberg / MINCO Thm 2) and exactness of Thomas recurrences trusted; pivots nonsingular; rounding not decided (C18)"),
  "C03": dict(cat="proof", tech="structural/path rules on the lookup and evaluator funnel + comparison-shape normalisation + compile-time witnesses for the factor table",
@@ -24,7 +24,7 @@ P = {
  "C04": dict(cat="proof", tech="algebraic summary of the energy loop compared with symbolically generated Gram matrices",
    text="Per-segment energy increment equals the integral of the squared s-th derivative of the published coefficient rows as a polynomial identity; loop covers all segments.",
    note="exact arithmetic; rounding ('non-negative up to rounding') not decided"),
- "C05": dict(cat="proof", tech="algebraic summaries: adjoint tables vs symbolic derivatives of the code's own forward summaries; transposed-solve template unification; effect analysis for linearity/history-freedom",
+ "C05": dict(cat="proof", tech="algebraic summaries: adjoint tables vs symbolic derivatives of the code's own forward summaries; transposed-solve sweeps read by block offset; N = 1 and N = 2 replayed with concrete sizes (index aliasing included); effect analysis for linearity/history-freedom",
    text="Local pull-back tables, duration terms, system-derivative tables, transposed solve and boundary corrections equal the reverse-mode derivative of the forward summaries.",
    note="exact arithmetic; nonsingular pivots; Lagrangian adjoint identity (DESIGN s5.4) trusted after self-check"),
  "C06": dict(cat="proof", tech="algebraic summaries of the six energy-gradient getters vs first-variation / conserved-quantity formulas generated symbolically",
@@ -48,25 +48,25 @@ P = {
  "C12": dict(cat="proof", tech="effect isolation of the per-segment lambda (index-injective footprints), serial reductions, const-path write enumeration with layout-cache typestate",
    text="Lambda footprints are disjoint across segment indices, reductions are outside the executor, and const entry points write no shared state.",
    note="user functors/maps assumed re-entrant; data-race definition of the C++ memory model"),
- "C13": dict(cat="proof", tech="coordinate-uniformity effect system + taint (data never reaches factor caches) + DIM-branch summary agreement",
+ "C13": dict(cat="proof", tech="coordinate-uniformity effect system (incl. early exits from coordinate loops) + taint (data never reaches factor caches) + DIM-branch summary agreement + raw-storage views resolved to row maps and DIM special cases compared in a one-coordinate model across instantiations",
    text="Vector data only flows through coordinate-uniform operations; scalar factorisations are data independent; the two DIM branches of the septic adjoint agree.",
    note="parametricity over DIM within {1},{2,3},{4..10}"),
- "C14": dict(cat="proof", tech="taint of the start time, zero-sum/difference-form and weighted-homogeneity (units) inference on algebraic summaries, mirror symmetry of blocks",
+ "C14": dict(cat="proof", tech="taint of the start time, zero-sum/difference-form and weighted-homogeneity (units) inference on algebraic summaries, mirror symmetry of blocks, row residues of coefficient reads (index arithmetic and raw views), minimiser and adjoint premises re-derived from the solver / adjoint summaries",
    text="Necessary conditions of the four invariances as degree/weight/symmetry facts on the summaries; sufficiency via C02.",
    note="exact arithmetic"),
- "C15": dict(cat="proof", tech="pointer-provenance / ownership abstract interpretation of the copy operations and setters, once per alias configuration of the inputs (own default vs caller's map, workspace present or not, self-assignment) + value-class member typing on the instantiated AST",
+ "C15": dict(cat="proof", tech="pointer-provenance / ownership abstract interpretation of the copy operations and setters, once per alias configuration of the inputs (own default vs caller's map, workspace present or not, self-assignment) + declared move operations (rvalue sources) + value-class member typing on the instantiated AST",
    text="Aliasing after copy is decided from types and assignments alone, hence for every history of copies, assignments, mutation and destruction.",
    note="C++ object semantics; last_error_message_ is a reasoned exception"),
  "C16": dict(cat="proof", tech="extraction and normalisation of the rejection predicates; verdict/message typestate; PPolyND rejection-path state; compile-time witness for the threshold",
    text="Set of rejection predicates equals the specified set, threshold constant and strictness, verdict/message coherence on every path, PPolyND rejection paths and at() bounds.",
    note="std::isfinite semantics under the build flags not decided"),
- "C17": dict(cat="proof", tech="algebraic summaries of the time-map branches: continuity/C1 at the switch, backward = derivative, inverse identities, sign-domain positivity",
+ "C17": dict(cat="proof", tech="algebraic summaries of the time-map branches: continuity/C1 at the switch, backward = derivative, inverse identities (refuted only by exact evaluation at a sample point), signs decided exactly (assumptions, real-root counting)",
    text="Branch-wise calculus on the extracted closed forms for all real tau and T>0.",
    note="exact arithmetic; monotonicity between adjacent floats not decided"),
  "C19": dict(cat="proof", tech="structural rules on checkGradients: perturb/restore typestate per component, central-difference formula, same functors/workspace, final re-evaluation",
    text="Loop covers every component with +eps/-eps/restore, formula (c+-c-)/(2eps), final evaluation at x into the analytic gradient, verdict formula, forwarding overload.",
    note="accuracy of finite differences for a particular user cost not decided"),
- "C20": dict(cat="other", tech="algebraic/structural summaries of the sampling, arc-length and factory helpers",
+ "C20": dict(cat="other", tech="abstract interpretation of the sampling and arc-length helpers per path of their data tests (sequence content, append condition, Riemann summand with opaque evaluate) + structural summaries of the factories",
    text="Sequence construction formula, end-append rule, left-Riemann formula, batch = pointwise, factory coefficient construction are checked structurally; floating-point floor effects are listed as not decided.",
    note="value-dependent clauses (floor rounding, overflow of the step count, discretisation bound) not decided"),
 }
